@@ -38,8 +38,30 @@ var afterOps = []int{mRetag, mLenDelta, mLenNonMinimal, mLenIndefinite, mDup, mD
 
 func genLax(t *rapid.T) LaxCase {
 	var c LaxCase
-	c.T = genTD(t, maxDepth, roleRoot, true, true)
 	forced, atFront := false, false
+	if pct(t, 12, "bareroot") {
+		// a bare INTEGER / OID / string / SEQUENCE OF target: lax given for the top-level element only
+		k := rapid.SampledFrom([]string{KInt, KInt32, KBig, KOID, KEnum, KStr, KSeqOf, KSeqOf}).Draw(t, "barekind")
+		c.T = TD{K: k}
+		switch k {
+		case KStr:
+			c.T.Str = rapid.SampledFrom([]string{"", "printable"}).Draw(t, "barestr")
+		case KSeqOf:
+			ek := rapid.SampledFrom([]string{KInt, KBig, KOID, KEnum, KStr}).Draw(t, "bareelem")
+			c.T.E = &TD{K: ek}
+			c.T.Set = pct(t, 30, "bareset")
+		}
+		switch rapid.IntRange(0, 3).Draw(t, "baretag") {
+		case 1:
+			c.T.HasTag, c.T.Tag = true, rapid.SampledFrom(rootTags).Draw(t, "barettag")
+		case 2:
+			c.T.HasTag, c.T.Expl, c.T.Tag = true, true, rapid.SampledFrom(rootTags).Draw(t, "barettag")
+		}
+		c.V = genVal(t, &c.T, 70, "")
+		c.Rest = genRest(t)
+		return c
+	}
+	c.T = genTD(t, maxDepth, roleRoot, true, true)
 	if !c.T.has(malEligible) || pct(t, 30, "extra") {
 		k := rapid.SampledFrom([]string{KInt, KBig, KOID, KStr, KEnum}).Draw(t, "extrakind")
 		f := TD{K: k}
